@@ -153,6 +153,7 @@ func gaussRef(sigma float64) func(k, n int) float64 {
 }
 
 func checkWindows(c *vrt.Ctx) {
+	checkValuesCallbacks(c)
 	maxN := c.Pick(400, 3000)
 	defs := append([]winDef(nil), winDefs...)
 	for _, s := range []float64{0.05, 0.3, 0.5, 1.2, 7, 1e3} {
